@@ -235,8 +235,12 @@ def endOfSequence (s : VState) : M Unit := do
 /-- `parse_stream`: sequences back to back; returns the verdict and the decoded picture numbers -/
 def run (cfg : Config) : VState → List DUnit → Verdict × List Nat
   | s, [] =>
-    -- end of file: fine between sequences, UnexpectedEndOfStream inside one
-    if s.lastPI.isNone then (.ok, s.decoded) else (.reject "UnexpectedEndOfStream", s.decoded)
+    -- end of file: fine between sequences; inside one, `parse_info` is entered once more: its check of the previous
+    -- unit's next_parse_offset comes first, then the prefix cannot be read (UnexpectedEndOfStream)
+    if s.lastPI.isNone then (.ok, s.decoded)
+    else match checkLastNext s with
+      | .error v => (v.toVerdict, s.decoded)
+      | .ok () => (.reject "UnexpectedEndOfStream", s.decoded)
   | s, u :: rest =>
     match parseInfo s u with
     | .error v => (v.toVerdict, s.decoded)
